@@ -35,6 +35,9 @@ type BootOpts struct {
 	WALFile   string // default: <tmp>/core.wal
 	MaxConcurrency int
 	LockTimeout time.Duration
+	// NoShims: calcium keeps its own store / resource manager / WAL (no recording decorators, no lock table):
+	// nothing of the harness sits between core's goroutines (C34)
+	NoShims bool
 }
 
 // Cluster is one Calcium instance with its shims.
@@ -135,9 +138,11 @@ func Boot(t *testing.T, b *Boundary, o BootOpts, shared *Cluster) *Cluster {
 	cl.Store = &StoreShim{Real: cl.Raw, B: b, Inst: o.Inst, Locks: cl.Locks}
 	cl.Rmgr = &RmgrShim{Real: c.VerifRmgr(), B: b, Inst: o.Inst}
 	cl.WAL = &WALShim{Real: c.VerifWAL(), B: b, Inst: o.Inst}
-	c.VerifSetStore(cl.Store)
-	c.VerifSetRmgr(cl.Rmgr)
-	c.VerifSetWAL(cl.WAL)
+	if !o.NoShims {
+		c.VerifSetStore(cl.Store)
+		c.VerifSetRmgr(cl.Rmgr)
+		c.VerifSetWAL(cl.WAL)
+	}
 	if cl.Plug, err = cpumem.NewPlugin(ctx, cfg, t); err != nil {
 		t.Fatalf("cpumem.NewPlugin: %v", err)
 	}
